@@ -12,8 +12,8 @@ Open Scope Q_scope.
 Definition rel_tol : Q := 1 # 1000000000.            (* 1e-9 *)
 Definition band : Q := 1 # 1000000.                   (* 1e-6 cell *)
 Definition n_slack : Q := 1 # 1000000.
-(* evaluation hook of the model: 48 significant bits per arithmetic step (see Rotator.v) *)
-Definition rnd : Q -> Q := rnd_bits 48.
+(* evaluation hook of the model: 44 significant bits per arithmetic step (see Rotator.v) *)
+Definition rnd : Q -> Q := rnd_bits 44.
 
 Inductive c18_case :=
 | CRot (pmin pmax : vec3) (n : n3) (nv : nat) (perm : list nat) (vals : list Q)
@@ -42,14 +42,20 @@ Fixpoint last_rot (ops : list op) (cur : option (option n3)) : option (option n3
   | OClear :: t => last_rot t None
   end.
 
+(* values: the model side is rotated_val_fast unfolded (so that the back-rotated centre is shared with
+   the band test); rotated_val_fast = rotated_val = f_val (st_field (run ...)) by the lemmas
+   rotated_val_fast_eq and run_field of proofs/C18_machine.v *)
 Definition check_vals (nv : nat) (perm : list nat) (orig : fld) (R : mat3) (n' : n3)
-           (model obs : arr) (vtol : Q) : bool :=
-  let '(gx, gy, gz) := grids rnd orig in
+           (obs : arr) (vtol : Q) : bool :=
+  let g := grids rnd orig in
+  let gx := fst (fst g) in let gy := snd (fst g) in let gz := snd g in
   let c := cellv orig in
   let ra := memo4 (f_n orig) nv (rot_arr rnd nv R perm (f_val orig)) in
+  let lo' := new_pmin rnd R orig in let hi' := new_pmax rnd R orig in
+  let ctr := centre orig in let Rt := mtrans R in
   forallb (fun i => forallb (fun j => forallb (fun k =>
-    let p := back_pos rnd orig R n' i j k in
-    let m := model i j k in
+    let p := back_pos_at rnd lo' hi' ctr Rt n' i j k in
+    let m := interp_at rnd gx gy gz (f_n orig) ra p in
     let inband := near_edge gx (vx c) (vx p) || near_edge gy (vy c) (vy p) || near_edge gz (vz c) (vz p) in
     let pc := V3 (clamp1 gx (vx p)) (clamp1 gy (vy p)) (clamp1 gz (vz p)) in
     let alt := if inband then interp_at rnd gx gy gz (f_n orig) ra pc else fun _ => 0 in
@@ -80,7 +86,7 @@ Definition check_C18 (c : c18_case) : bool :=
           | Some ne => n3_eqb ne obs_n
           | None => n_adm rnd n_slack R orig obs_n
           end &&
-          check_vals nv perm orig R obs_n (f_val (st_field final)) (arr_of_list obs_n nv obs_vals)
+          check_vals nv perm orig R obs_n (arr_of_list obs_n nv obs_vals)
                      (rel_tol * vscale)
       end
   end.
